@@ -116,6 +116,7 @@ func (s *Sync) namespacedClient(peerInfo peer.AddrInfo, rtOpts ...libp2phttp.Rou
 // remembers for the peer, so that the next Syncer created for the peer asks it
 // again. What a peer answered once may have been damaged on the way.
 func (s *Sync) ForgetPeer(peerID peer.ID) {
+	verifhook.LockWait("clienthost.lock", nil, &s.clientHostMutex)
 	s.clientHostMutex.Lock()
 	s.clientHost.RemovePeerMetadata(peerID)
 	s.clientHostMutex.Unlock()
